@@ -62,7 +62,7 @@ Proof. vm_compute. split; reflexivity. Qed.
 Example c09_example :
   let q := {| proto := [72;84;84;80;47;49;46;49]; minor11 := true; rclose := false |} in
   chunked (prep0 (after_headers q [HCustom [88] [49]])) = true /\
-  forallb is_body_op [HWrite [1;2;3]; HFlush; HWrite (repeat 7 70000); HWrite []; HWrite [4]] = true.
+  forallb is_body_op [HWrite [1;2;3]; HFlush; HWrite (repeat 7 (N.to_nat 70000)); HWrite []; HWrite [4]] = true.
 Proof. split; reflexivity. Qed.
 
 Print Assumptions c09_write_reports_len.
